@@ -172,6 +172,39 @@ def dropin_unit_holds_merged_targets(ctx):
                   "prekill_hook_timeout 5 s, no cgroup / xattr filter / log silencing)" % (cd.text(a0)[:60] if a0 is not None else "?"))
 
 
+
+def update_removes_then_adds(ctx):
+    """DropInServiceAdaptor::updateDropIns: every queued entry first removes its tag from the engine (rulesets, targeting, counter AND the
+    tag's prekill hooks), then - only for entries carrying a unit - adds the new content under the same tag; entries in arrival order.
+    (Shared by C07: addDropInConfig only appends hooks, so without the removal a rewritten drop-in leaves its old hooks in front.)"""
+    P = ctx.prog
+    # ------------------------------------------------ updateDropIns
+    up = ctx.fn1("Oomd::DropInServiceAdaptor::updateDropIns")
+    rmv_ = up.calls("Engine::removeDropInConfig")
+    ls = [l for l in loops(up) if l["stmt"] is not None and up.nodes[l["stmt"]]["k"] in ("rangefor", "for") and
+          any(up.pos_of(i)[0] in l["body"] or l["stmt"] in list(up.ancestors(i)) for i in rmv_)]
+    if len(ls) != 1:
+        ctx.broken("update:loop", "anchor", up.loc(), "expected one loop over the drained queue")
+    else:
+        L = ls[0]
+        rmv = up.calls("Engine::removeDropInConfig")
+        addc = up.calls("Engine::addDropInConfig")
+        per_iter_once(ctx, up, L, rmv, "update:remove-every-entry", "removeDropInConfig(tag)")
+        no_early_exit(ctx, up, L, "update:every-entry", "the queue")
+        fi = iter_flow(ctx, up, L, {i: [("set", "removed")] for i in rmv})
+        for i in addc:
+            ctx.check(fi.must(i, "removed"), "update:remove-before-add", "order", up.loc(i),
+                      "a tag is removed before it is (re-)added", "addDropInConfig can run without the tag having been removed first")
+            Xu = Expander(P, up)
+            a0 = Xu(up.nodes[i]["args"][1]) if len(up.nodes[i].get("args", [])) > 1 else ""
+            gk = [k for k, p in fi.guards(i) if p is True and not k.startswith("(")]
+            ctx.check(has_fact(fi.guards(i), True, "unit") or any(re.search(r"\b%s\b" % re.escape(k.split(".")[0]), up.text(up.nodes[i]["args"][1])) for k in gk), "update:add-only-with-unit", "guarded_by", up.loc(i),
+                      "add only for entries carrying a unit", "add attempted for a removal entry")
+            a = [up.text(x) for x in up.nodes[i]["args"]]
+            r0 = [up.text(x) for x in up.nodes[rmv[0]]["args"]] if rmv else ["?"]
+            ctx.check(a[0] == r0[0], "update:same-tag", "provenance", up.loc(i), "removes and adds the same tag", "tags differ: %s / %s" % (r0[0], a[0]))
+        ctx.check(forward_iteration(up, L), "update:queue-order", "loop-shape", up.loc(L["stmt"]), "queue entries are applied in arrival order", "queue not traversed forward")
+
 def run(ctx):
     dropin_unit_holds_merged_targets(ctx)
     dropins_leave_only_through_remove(ctx)
@@ -527,32 +560,7 @@ def run(ctx):
         ctx.check(not fc.may(i, "merge-refused") and cd.text(cd.nodes[i]["args"][0]) == "target", "dropin:only-merged-targets", "never_after", cd.loc(i),
                   "only successfully merged copies enter the unit", "a refused or unmerged ruleset enters the unit")
 
-    # ------------------------------------------------ updateDropIns
-    up = ctx.fn1("Oomd::DropInServiceAdaptor::updateDropIns")
-    rmv_ = up.calls("Engine::removeDropInConfig")
-    ls = [l for l in loops(up) if l["stmt"] is not None and up.nodes[l["stmt"]]["k"] in ("rangefor", "for") and
-          any(up.pos_of(i)[0] in l["body"] or l["stmt"] in list(up.ancestors(i)) for i in rmv_)]
-    if len(ls) != 1:
-        ctx.broken("update:loop", "anchor", up.loc(), "expected one loop over the drained queue")
-    else:
-        L = ls[0]
-        rmv = up.calls("Engine::removeDropInConfig")
-        addc = up.calls("Engine::addDropInConfig")
-        per_iter_once(ctx, up, L, rmv, "update:remove-every-entry", "removeDropInConfig(tag)")
-        no_early_exit(ctx, up, L, "update:every-entry", "the queue")
-        fi = iter_flow(ctx, up, L, {i: [("set", "removed")] for i in rmv})
-        for i in addc:
-            ctx.check(fi.must(i, "removed"), "update:remove-before-add", "order", up.loc(i),
-                      "a tag is removed before it is (re-)added", "addDropInConfig can run without the tag having been removed first")
-            Xu = Expander(P, up)
-            a0 = Xu(up.nodes[i]["args"][1]) if len(up.nodes[i].get("args", [])) > 1 else ""
-            gk = [k for k, p in fi.guards(i) if p is True and not k.startswith("(")]
-            ctx.check(has_fact(fi.guards(i), True, "unit") or any(re.search(r"\b%s\b" % re.escape(k.split(".")[0]), up.text(up.nodes[i]["args"][1])) for k in gk), "update:add-only-with-unit", "guarded_by", up.loc(i),
-                      "add only for entries carrying a unit", "add attempted for a removal entry")
-            a = [up.text(x) for x in up.nodes[i]["args"]]
-            r0 = [up.text(x) for x in up.nodes[rmv[0]]["args"]] if rmv else ["?"]
-            ctx.check(a[0] == r0[0], "update:same-tag", "provenance", up.loc(i), "removes and adds the same tag", "tags differ: %s / %s" % (r0[0], a[0]))
-        ctx.check(forward_iteration(up, L), "update:queue-order", "loop-shape", up.loc(L["stmt"]), "queue entries are applied in arrival order", "queue not traversed forward")
+    update_removes_then_adds(ctx)
     handoff_queue_fifo(ctx)
 
     # ------------------------------------------------ evaluation order (shared with C02)
